@@ -75,6 +75,22 @@ func ZZ_C09_Session() {
 	}
 	err := b.sess.Set(s)
 	zzrt.Assert(err == nil, "session-set-succeeds")
+	// the session is written again on every later CONNECT that resumes it (new connect
+	// time, possibly new will / intervals) and its expiry on DISCONNECT; the server may
+	// die before any command of those writes
+	st.Lazy = true
+	s2 := &gmqtt.Session{ClientID: id, WillDelayInterval: zzrt.Uint32(), ExpiryInterval: zzrt.Uint32(), ConnectedAt: time.Unix(int64(zzrt.Uint32()), 0), Will: s.Will}
+	rewrote := false
+	switch zzrt.Choice(3) {
+	case 1:
+		rewrote = zzStep(st, func() { err = b.sess.Set(s2) })
+		zzrt.Assert(err == nil, "session-rewrite-succeeds")
+	case 2:
+		s2 = &gmqtt.Session{ClientID: id, WillDelayInterval: s.WillDelayInterval, ExpiryInterval: s2.ExpiryInterval, ConnectedAt: s.ConnectedAt, Will: s.Will}
+		rewrote = zzStep(st, func() { err = b.sess.SetSessionExpiry(id, s2.ExpiryInterval) })
+		zzrt.Assert(err == nil, "session-expiry-update-succeeds")
+	}
+	cut := st.Crashed
 	b2 := zzStart(st.Survivor(), 10)
 	var got []*gmqtt.Session
 	err = b2.sess.Iterate(func(x *gmqtt.Session) bool { got = append(got, x); return true })
@@ -82,8 +98,16 @@ func ZZ_C09_Session() {
 	zzrt.Assert(len(got) == 1, "acknowledged-session-listed-after-restart")
 	g := got[0]
 	zzrt.Assert(g.ClientID == id, "session-restored-under-the-same-client-id")
-	zzrt.Assert(g.ExpiryInterval == s.ExpiryInterval && g.WillDelayInterval == s.WillDelayInterval, "session-intervals-restored")
-	zzrt.Assert(g.ConnectedAt.Unix() == s.ConnectedAt.Unix(), "session-connected-at-restored")
+	same := func(w *gmqtt.Session) bool {
+		return zzrt.ConcreteBool(g.ExpiryInterval == w.ExpiryInterval && g.WillDelayInterval == w.WillDelayInterval && g.ConnectedAt.Unix() == w.ConnectedAt.Unix())
+	}
+	if rewrote {
+		zzrt.Assert(same(s2), "session-fields-restored")
+	} else if cut {
+		zzrt.Assert(same(s) || same(s2), "session-fields-restored")
+	} else {
+		zzrt.Assert(same(s), "session-fields-restored")
+	}
 	zzrt.Assert((g.Will == nil) == (s.Will == nil), "session-will-presence-restored")
 	if s.Will != nil && g.Will != nil {
 		zzrt.Assert(g.Will.Topic == s.Will.Topic && zzrt.BytesEq(g.Will.Payload, s.Will.Payload) && g.Will.QoS == s.Will.QoS && g.Will.Retained == s.Will.Retained, "session-will-restored")
